@@ -35,6 +35,9 @@ def accuracy(Y1, Y2):
     z1, p1 = np.sqrt(z1) if z1 > 0 else 0., q / 2
     z2, p2 = teneva.norm(Y2, use_stab=True)
 
+    if abs(z2) < 1.E-100:
+        return -1
+
     if p1 - p2 > 500:
         return 1.E+299
     if p1 - p2 < -500:
